@@ -1,11 +1,13 @@
 import Driver.Proto
 import Model.TaskQueue
 import Model.TaskQueueNew
+import Model.TaskQueueEnv
 import Std.Data.HashSet
 /-! Model driver of C15 (task queue).  Area `cfg`: `cfg <ncpu> <option>*` prints the configuration `New` makes of the
   options (Model/TaskQueueNew.lean).  Area `forced`: scripts of environment actions
 
       reset | new <workers> <depth> <inCap> [<handler mode 0..3>] | sub <n|p|s|r|x|e|z|f|w|0|v>+ | rel <id>* | shut | relshut <id>* | obs | end
+      | late <flag> (Submit after Shutdown) | shutx (Shutdown while a Submit is blocked): outside the contract, Model/TaskQueueEnv.lean
 
   (anything after `##` on a line is a hint for the harness and is ignored here).  After each line the model runs its
   internal steps (dispatcher, workers taking and reporting, released tasks finishing, the sequential submitter's
@@ -24,6 +26,7 @@ structure D where
   live : Bool := false
   nodes : List Node := []
   released : List Nat := []
+  xp : Nat := 0            -- Submit calls that panicked in their caller (TQE.ES.callerPanics, the same in every node)
 
 def wkey : W → Nat
   | .idle => 0
@@ -129,17 +132,47 @@ def report (c : Cfg) (pre : String) (nodes : List Node) : String :=
   | [o] => pre ++ o
   | os => "nondet " ++ pre ++ " | ".intercalate (os.foldr insertSortedS [])
 
+def allB (l : List Node) (p : Node → Bool) : Bool := l.all p
+
 /-- run to quiescence and print -/
 def settle (d : D) (pre : String) (nodes : List Node) : D × String :=
   match explore d.cfg d.released nodes {} [] with
   | none => ({ d with nodes := nodes }, "too-big")
-  | some q => ({ d with nodes := q }, report d.cfg pre q)
+  | some q => ({ d with nodes := q }, report d.cfg pre q ++ (if d.xp > 0 then s!" xp={d.xp}" else ""))
+
+/-- `k` Submit calls that find the input closed, by the caller layer `TQE.enext`; `none` if one of them is not enabled -/
+def lateCalls (c : Cfg) (ts : TS) (xp k : Nat) : Option Nat :=
+  (TQE.erunLabels code c { ts := ts, callerPanics := xp } (List.replicate k .submitClosed)).map (·.callerPanics)
+
+/-- `late`: one Submit call after Shutdown was called — it panics in its caller, nothing is accepted -/
+def doLate (d : D) : D × String :=
+  if allB d.nodes (fun n => n.1.q.shut == 0) then settle d "late-refused " d.nodes
+  else match d.nodes.mapM (fun n => lateCalls d.cfg n.1 d.xp 1) with
+    | some (x :: _) => settle { d with xp := x } "" d.nodes
+    | _ => (d, "too-big")   -- Shutdown called in some interleavings only: the script is not used
+
+/-- `shutx`: Shutdown while the submitter is blocked in Submit — `close(q.in)`, then the blocked send and every further
+    send of the submitter panic -/
+def doShutX (d : D) : D × String :=
+  if allB d.nodes (fun n => !n.2.isEmpty && n.1.q.shut == 0) then
+    match d.nodes with
+    | [] => (d, "too-big")
+    | n0 :: _ =>
+      let k := n0.2.length
+      if !allB d.nodes (fun n => n.2.length == k) then (d, "too-big") else
+      let stepped := d.nodes.mapM fun n =>
+        (TQE.enext code d.cfg { ts := n.1, callerPanics := d.xp } (.inner (.q .shutdown))).bind fun e =>
+          (lateCalls d.cfg e.ts e.callerPanics k).map fun x => (e.ts, x)
+      match stepped with
+      | some ((ts0, x) :: rest) => settle { d with xp := x } "" (((ts0, x) :: rest).map fun p => (p.1, []))
+      | _ => (d, "too-big")
+  else if allB d.nodes (fun n => n.2.isEmpty || n.1.q.shut != 0) then settle d "shutx-refused " d.nodes
+  else (d, "too-big")
 
 def parseIds (ws : List String) : Option (List Nat) := ws.mapM String.toNat?
 
 def stripHint (ws : List String) : List String := ws.takeWhile (· != "##")
 
-def allB (l : List Node) (p : Node → Bool) : Bool := l.all p
 
 def doShut (d : D) : D × String :=
   -- Shutdown is only legal when no Submit is outstanding and it has not been called before
@@ -200,6 +233,11 @@ def step (d : D) (line : String) : D × String :=
     | some ids => settle { d with released := d.released ++ ids.filter (fun i => !d.released.contains i) } "" d.nodes
     | none => (d, "bad-op")
   | ["shut"] => if !d.live then (d, "bad-op") else doShut d
+  | ["late", fl] =>
+    if !d.live then (d, "bad-op")
+    else if fl.length != 1 ∨ !fl.toList.all (fun ch => "npsrxezfw0v".toList.contains ch) then (d, "bad-op")
+    else doLate d
+  | ["shutx"] => if !d.live then (d, "bad-op") else doShutX d
   | "relshut" :: ids =>
     if !d.live then (d, "bad-op") else
     match parseIds ids with
